@@ -16,6 +16,7 @@ import (
 
 	"cedarsim/hs"
 	"cedarsim/kernel"
+	"cedarsim/puppet"
 	"cedarsim/scen"
 	"cedarsim/simnet"
 
@@ -311,7 +312,7 @@ func run(s *kernel.Sim, c *scen.Case) {
 			nconn = 1
 		}
 		for ci := 0; ci < nconn && !z.viol; ci++ {
-			kind := t.Choose("kind", 8)
+			kind := t.Choose("kind", 9)
 			if p.Kind == "cube" {
 				kind = 0
 			}
@@ -421,6 +422,28 @@ func run(s *kernel.Sim, c *scen.Case) {
 					}
 					cs.ep.Close()
 				}
+			case kind == 8: // a client that deviates in the key agreement (scripted): unusable, truncated or missing ECDH key
+				cmd := pickCmd()
+				ep, err := net0.Dial(bg, "10.0.0.1", "10.0.0.2:9618")
+				if err != nil {
+					continue
+				}
+				st := stream.NewStream(ep)
+				dev := puppet.Dev{ECDH: kernel.Pick(t, "ecdh", "random", "truncate", "omit", "garbage")}
+				lv := func(l security.SecurityLevel) string { return string(l) }
+				rec := puppet.Client(bg, st, puppet.ClientOpts{Methods: []string{"CLAIMTOBE"}, Auth: lv(lvl("dv.auth")), Enc: lv(lvl("dv.enc")), Command: cmd, User: "root", Dev: dev})
+				if rec.Err != nil || rec.PostAuth == nil {
+					s.Probe("deviating-client-refused")
+					ep.Close()
+					continue
+				}
+				if sid, ok := rec.PostAuth.EvaluateAttrString("Sid"); ok {
+					z.truth[sid] = truth{authed: rec.AuthRan != "", keyed: rec.KeyInstalled}
+				}
+				if _, err := st.ReceiveCompleteMessage(bg); err == nil {
+					s.Probe("deviating-client-command-ran")
+				}
+				ep.Close()
 			case kind == 7: // time passes / policy and authorizer change between connections
 				changePolicy()
 				redraw()
